@@ -33,9 +33,11 @@ class FlatConst (α : Type) where
 instance : FlatConst Float32 where
   epsilon := Float32.ofScientific 1 true 4
   value m e := Float32.ofScientific m true e
+  -- rustc/LLVM folds `0.67f32.powi(4)` at compile time: evaluated in double precision and then
+  -- rounded to f32 (0x3e4e58f6), one ulp above the all-f32 product (d·d)·(d·d) = 0x3e4e58f5.
   d4 :=
-    let d := Float32.ofScientific 67 true 2
-    (d * d) * (d * d)
+    let d := (Float32.ofScientific 67 true 2).toFloat
+    ((d * d) * (d * d)).toFloat32
 
 instance : FlatConst Float where
   epsilon := Float.ofScientific 1 true 8
